@@ -13,7 +13,8 @@
 (*     nothing and changes nothing                                         *)
 (*   - Attach is refused for a deactivated client and for a document the   *)
 (*     client already has attached; a detached (or self-removed) document  *)
-(*     may be attached again                                               *)
+(*     may be attached again - with a NEW local instance; the instance     *)
+(*     that was attached before is refused (reattach)                      *)
 (*   - Detach/Deactivate/Remove take effect exactly once; Deactivate       *)
 (*     detaches everything the client has attached                         *)
 (*   - a removed document stays removed: it stores nothing more and every  *)
@@ -29,7 +30,7 @@ EXTENDS Naturals, Sequences, FiniteSets, TLC, Json
 CONSTANTS MaxLen, MaxAct
 Clients == {"c1", "c2"}
 Docs == {"d1", "d2"}
-Ops == {"activate", "deactivate", "attach", "sync", "detach", "remove"}
+Ops == {"activate", "deactivate", "attach", "reattach", "sync", "detach", "remove"}
 
 InitState == [act |-> [c \in Clients |-> "none"],
               att |-> [k \in Clients \X Docs |-> "none"],
@@ -47,6 +48,9 @@ Issuable(s, k) ==
          \* known finding KF-DEACTIVATE-REMOVED-DOC (memdb): a client attached to a removed document
          /\ ~\E d \in Docs : s.att[<<k.c, d>>] = "attached" /\ s.rem[d]
     [] k.op = "attach" -> s.act[k.c] # "none" /\ ~s.rem[k.d]      \* a removed key starts a NEW document: out of scope
+    \* Attach with the local document instance the client already used for this document (its checkpoint
+    \* is ahead of 0): only possible while the client holds such an instance
+    [] k.op = "reattach" -> s.act[k.c] # "none" /\ ~s.rem[k.d] /\ s.att[<<k.c, k.d>>] \in {"attached", "detached"}
     [] OTHER -> s.act[k.c] # "none" /\ s.known[k.d]
 
 Holds(s, k) == s.act[k.c] = "active" /\ s.att[<<k.c, k.d>>] = "attached"
@@ -66,10 +70,13 @@ Expected(s, k) ==
          ELSE [ok |-> TRUE, stored |-> 0, flag |-> FALSE,
                s2 |-> [s EXCEPT !.act[k.c] = "inactive",
                                 !.att = [x \in Clients \X Docs |-> IF x[1] = k.c /\ @[x] = "attached" THEN "detached" ELSE @[x]]]]
-    [] k.op = "attach" ->
+    [] k.op = "attach" ->     \* (like the SDK, the attach request carries one change)
          IF s.act[k.c] # "active" \/ s.att[key] = "attached" THEN same
-         ELSE [ok |-> TRUE, stored |-> 0, flag |-> FALSE,
+         ELSE [ok |-> TRUE, stored |-> one, flag |-> FALSE,
                s2 |-> [s EXCEPT !.att[key] = "attached", !.known[k.d] = TRUE]]
+    \* a document instance that was attached before cannot be attached again: neither while it still
+    \* is attached nor after it was detached (only a new instance can)
+    [] k.op = "reattach" -> same
     [] k.op = "sync" ->
          IF ~Holds(s, k) THEN same
          ELSE [ok |-> TRUE, stored |-> one, flag |-> s.rem[k.d], s2 |-> s]
@@ -108,7 +115,7 @@ RefusedChangesNothing ==
   \A op \in Ops, c \in Clients, d \in Docs :
     LET k == Call(op, c, d) e == Expected(st, k) IN
       /\ (~e.ok => e.s2 = st /\ e.stored = 0)
-      /\ ((e.stored > 0) => Holds(st, k))
+      /\ ((e.stored > 0) => (Holds(st, k) \/ (op = "attach" /\ st.act[c] = "active")))
       /\ ((e.ok /\ op \in {"sync", "detach", "remove"}) => Holds(st, k))
 \* a removed document stays removed and stores nothing
 RemovedIsSticky ==
